@@ -553,8 +553,9 @@ func (s *scanningState) scan(line []byte) (bool, error) {
 				return true, nil
 			}
 		}
-		// Switch to race detection mode.
-		if bytes.Equal(trimmed, raceHeaderFooter) {
+		// Switch to race detection mode. Only when no goroutine was found yet: a
+		// race report cannot continue a goroutine dump, it is a trace of its own.
+		if s.state == looking && bytes.Equal(trimmed, raceHeaderFooter) {
 			// TODO(maruel): We should buffer it in case the next line is not a
 			// WARNING so we can output it back.
 			s.state = gotRaceHeader1
